@@ -6,6 +6,7 @@ import (
 	"fmt"
 	"net"
 	"runtime"
+	"strings"
 	"sync"
 	"sync/atomic"
 	"testing"
@@ -26,6 +27,9 @@ type c18Offender struct {
 	Bytes  []byte `json:"bytes,omitempty"`
 	HoldMs int    `json:"hold_ms"`
 	Cut    int    `json:"cut"` // partial-hello: number of bytes sent
+	// SNI (tls-* offenders): "" keeps the deployment's host name; "nosni" sends no server_name extension;
+	// anything else is sent as the server name. The offender then does not verify the server's certificate.
+	SNI string `json:"sni,omitempty"`
 }
 
 type c18Case struct {
@@ -43,6 +47,9 @@ type c18Target struct {
 	noCertCfg *tls.Config      // trusts the server but presents no certificate
 	sibling   *tls.Certificate // client certificate of ANOTHER deployment made by the same tool (same subject, same serial, different CA key)
 	entered   *sync.Map        // msgID -> true (plain servers only)
+	sent      *sync.Map        // msgID -> true: every message ID a harness client of this target ever put on the wire
+	strayMu   sync.Mutex
+	strays    []string // handler entries whose message ID no harness client sent (plain servers only)
 	onclose   *int64
 	dir       *dirHandle
 }
@@ -59,7 +66,7 @@ func c18Get(name string) (*c18Target, error) {
 	if t, ok := c18Targets[name]; ok {
 		return t, nil
 	}
-	t := &c18Target{entered: &sync.Map{}, onclose: new(int64)}
+	t := &c18Target{entered: &sync.Map{}, sent: &sync.Map{}, onclose: new(int64)}
 	lt := &labT{}
 	var err error
 	func() {
@@ -78,14 +85,21 @@ func c18Get(name string) (*c18Target, error) {
 			// the TLS configuration the repository itself hands to users
 			srvCfg, cliCfg := testdirectory.GetTLSConfig(lt, opts...)
 			mux, _ := gldap.NewMux()
-			_ = mux.DefaultRoute(func(w *gldap.ResponseWriter, r *gldap.Request) {
-				_, id, _ := gldap.VerifMessageInfo(r)
+			note := func(route string, r *gldap.Request) {
+				kind, id, _ := gldap.VerifMessageInfo(r)
 				t.entered.Store(id, true)
+				if _, ok := t.sent.Load(id); !ok {
+					t.strayMu.Lock()
+					t.strays = append(t.strays, fmt.Sprintf("%s handler, connection %d, decoded message kind %q with message ID %d", route, r.ConnectionID(), kind, id))
+					t.strayMu.Unlock()
+				}
+			}
+			_ = mux.DefaultRoute(func(w *gldap.ResponseWriter, r *gldap.Request) {
+				note("default-route", r)
 				_ = respondOK(w, r)
 			})
 			_ = mux.Unbind(func(w *gldap.ResponseWriter, r *gldap.Request) {
-				_, id, _ := gldap.VerifMessageInfo(r)
-				t.entered.Store(id, true)
+				note("unbind", r)
 			})
 			var srv *lab.Server
 			srv, err = lab.StartServer(mux, lab.ServerOpts{TLS: srvCfg, OnClose: func(int) { atomic.AddInt64(t.onclose, 1) }})
@@ -195,6 +209,7 @@ func c18Exec(c c18Case, st *lab.Stats) *lab.Fail {
 		defer wg.Done()
 		id := atomic.AddInt64(&c18Counter, 1) + 1000
 		ids[i] = id
+		tg.sent.Store(id, true)
 		dns[i] = fmt.Sprintf("cn=c18-%08d,ou=people,dc=example,dc=org", id)
 		op := o.Op
 		if c.Target == "dir-mtls" {
@@ -214,6 +229,7 @@ func c18Exec(c c18Case, st *lab.Stats) *lab.Fail {
 			time.Sleep(20 * time.Millisecond)
 			var po outcome
 			pid := atomic.AddInt64(&c18Counter, 1) + 1000
+			tg.sent.Store(pid, true)
 			pdn := fmt.Sprintf("cn=c18-%08d,ou=people,dc=example,dc=org", pid)
 			pop := "search"
 			if c.Target == "dir-mtls" {
@@ -334,6 +350,7 @@ func c18Exec(c c18Case, st *lab.Stats) *lab.Fail {
 			if cl, err := lab.DialTLS(og.addr, own); err == nil {
 				// one round trip so that the session ticket has been received
 				pid := atomic.AddInt64(&c18Counter, 1) + 1000
+				og.sent.Store(pid, true)
 				pop := "search"
 				if other == "dir-mtls" {
 					pop = "bind"
@@ -361,6 +378,14 @@ func c18Exec(c c18Case, st *lab.Stats) *lab.Fail {
 			cfg = &tls.Config{RootCAs: tg.validCfg.RootCAs, ServerName: "localhost", GetClientCertificate: forceCert(selfSigned)}
 		default: // valid
 			cfg = tg.validCfg
+		}
+		if o.SNI != "" && o.Kind != "valid" && cfg != nil {
+			cfg = cfg.Clone()
+			cfg.InsecureSkipVerify = true
+			cfg.ServerName = o.SNI
+			if o.SNI == "nosni" {
+				cfg.ServerName = ""
+			}
 		}
 		cl, err := lab.DialTLS(tg.addr, cfg)
 		if err != nil {
@@ -432,7 +457,7 @@ func c18Exec(c c18Case, st *lab.Stats) *lab.Fail {
 			res, err := dirConn.Search(&ldap.SearchRequest{BaseDN: dns[i], Scope: ldap.ScopeWholeSubtree, Filter: fmt.Sprintf("(%s)", dns[i])})
 			ran = err == nil && res != nil && len(res.Entries) > 0
 		}
-		st.Case(!allowed && outs[i].sentRequest, lab.JSONKey([]interface{}{c.Target, o}), "target="+c.Target, "offender="+o.Kind, fmt.Sprintf("allowed=%v", allowed), fmt.Sprintf("handshake-ok-clientside=%v", outs[i].handshakeOK))
+		st.Case(!allowed && outs[i].sentRequest, lab.JSONKey([]interface{}{c.Target, o}), "target="+c.Target, "offender="+o.Kind, fmt.Sprintf("allowed=%v", allowed), fmt.Sprintf("handshake-ok-clientside=%v", outs[i].handshakeOK), "sni="+o.SNI)
 		desc := fmt.Sprintf("%s client #%d kind=%s op=%s (client-side handshake ok=%v, request sent=%v, %s)", c.Target, i, o.Kind, o.Op, outs[i].handshakeOK, outs[i].sentRequest, outs[i].detail)
 		if !allowed && (ran || outs[i].answered) {
 			return lab.Failf("handler-reached:"+o.Kind, "%s: a handler ran / a response came back for a client that does not satisfy the TLS configuration", desc)
@@ -441,6 +466,15 @@ func c18Exec(c c18Case, st *lab.Stats) *lab.Fail {
 		if allowed && !(ran && (outs[i].answered || !needAnswer)) {
 			return lab.Failf("valid-client-not-served", "%s: a conforming client was not served (handler ran=%v, answered=%v)", desc, ran, outs[i].answered)
 		}
+	}
+	// a handler entry that belongs to no message any harness client sent: a handler ran for a connection
+	// (here: of an offender, the only clients that do not complete their sessions) without a request of its own
+	tg.strayMu.Lock()
+	strays := append([]string{}, tg.strays...)
+	tg.strays = nil
+	tg.strayMu.Unlock()
+	if len(strays) > 0 {
+		return lab.Failf("handler-reached:unsent-message", "%s with offenders %+v: %d handler invocation(s) for messages that no client sent: %s", c.Target, c.Offenders, len(strays), strings.Join(strays, "; "))
 	}
 	for _, po := range floodProbes {
 		st.Class("flood-probe")
@@ -467,7 +501,7 @@ func TestC18(t *testing.T) {
 		"tls-then-plaintext", "tls-then-plaintext", "tls-resume-foreign", "tls-resume-foreign"}
 	lab.Prop[c18Case]{
 		ID: "C18", Part: "tls-gate",
-		Rule: "rapid: targets = gldap.Server with the repository's own GetTLSConfig (server-auth only / WithMTLS) and a testdirectory.Directory started WithMTLS; 1..6 concurrent offenders per case = plaintext request of each of the 7 operations, random bytes, connect-and-stay-silent, partial ClientHello cut at a generated offset, TLS client without certificate, with a certificate of another CA, of a sibling deployment made by the same generator (same subject and serial, different CA key), self-signed, a flood of 2*NumCPU+8 silent connections held open while a conforming client arrives, a conforming session that sends close_notify and continues in plaintext on the same TCP connection, a client of another mTLS deployment in the same process that offers the TLS session it resumed from there, plus the valid client, alongside 1..4 conforming bystanders; oracle = no handler entry (plain servers: recording handler keyed by reserved message IDs; directory: the Add the offender sent has no effect visible to a conforming client) and no response for offenders, bystanders and valid clients served; non-trivial = an offender that got as far as sending an LDAP request; distinct by hash of (target, offender)",
+		Rule: "rapid: targets = gldap.Server with the repository's own GetTLSConfig (server-auth only / WithMTLS) and a testdirectory.Directory started WithMTLS; 1..6 concurrent offenders per case = plaintext request of each of the 7 operations, random bytes, connect-and-stay-silent, partial ClientHello cut at a generated offset, TLS client without certificate, with a certificate of another CA, of a sibling deployment made by the same generator (same subject and serial, different CA key), self-signed (each of these TLS offenders with the deployment's host name, no SNI at all or a foreign / case-variant server name), a flood of 2*NumCPU+8 silent connections held open while a conforming client arrives, a conforming session that sends close_notify and continues in plaintext on the same TCP connection, a client of another mTLS deployment in the same process that offers the TLS session it resumed from there, plus the valid client, alongside 1..4 conforming bystanders; oracle = no handler entry (plain servers: recording handler keyed by reserved message IDs; directory: the Add the offender sent has no effect visible to a conforming client) and no response for offenders, no handler entry at all for a message that no client sent (e.g. an unbind handler run on behalf of a connection that never completed its handshake), bystanders and valid clients served; non-trivial = an offender that got as far as sending an LDAP request; distinct by hash of (target, offender)",
 		Gen: func(t *rapid.T) c18Case {
 			c := c18Case{
 				Target:     rapid.SampledFrom([]string{"server-tls", "server-mtls", "server-mtls", "dir-mtls", "dir-mtls"}).Draw(t, "target"),
@@ -483,6 +517,9 @@ func TestC18(t *testing.T) {
 				}
 				if o.Kind == "random" {
 					o.Bytes = rapid.SliceOfN(rapid.Byte(), 1, 64).Draw(t, "bytes")
+				}
+				if strings.HasPrefix(o.Kind, "tls-") && o.Kind != "tls-then-plaintext" && rapid.Bool().Draw(t, "othersni") {
+					o.SNI = rapid.SampledFrom([]string{"nosni", "ldap.example.org", "LOCALHOST", "localhost.", "example.com", "x", "127.0.0.1.nip.io"}).Draw(t, "sni")
 				}
 				c.Offenders = append(c.Offenders, o)
 			}
